@@ -233,7 +233,10 @@ def concrete_playback(sc, ob):
     """re-run one refuted harness with concrete playback; -> list of (size, value) or None"""
     cmd = ["cargo", "kani", "-Z", "function-contracts", "-Z", "stubbing", "-Z", "unstable-options",
            "-Z", "concrete-playback", "--concrete-playback", "print"] + FEATURES[ob.get("features", "default")]
-    cmd += ["--harness", "verif::" + ob["name"], "--exact", "--harness-timeout", "%ds" % ob["timeout"],
+    if "cvc5" in ob.get("backend", ""):
+        # cvc5 gives Kani no trace: look for a model of the same obligation with a SAT solver, briefly
+        cmd += ["--solver", "kissat"]
+    cmd += ["--harness", "verif::" + ob["name"], "--exact", "--harness-timeout", "%ds" % min(ob["timeout"], 240 if "cvc5" in ob.get("backend", "") else ob["timeout"]),
             "--target-dir", os.path.join(sc.dir, "kt-" + ob.get("features", "default"))]
     if ob.get("checks", "nooverflow") == "nooverflow":
         cmd += ["--no-overflow-checks"]
